@@ -15,7 +15,7 @@ use std::panic::AssertUnwindSafe;
 use vharness::prog::*;
 use vharness::*;
 
-use crate::fe_damage::ALPHABET;
+use crate::fe_damage::{ALPHABET, EXTRA_TOKENS};
 
 pub fn diverging_components(inc: &AnalyzedSource, fresh: &AnalyzedSource) -> Vec<&'static str> {
     let mut v = Vec::new();
@@ -197,6 +197,17 @@ pub fn session_from(spells: Vec<String>, stride: usize, seed: u64) -> Outcome {
             }
         }
     }
+    // literals outside the core of SPL (not part of the TLC-bound edit count)
+    let bound = o.counters.iter().filter(|(k, _)| k == "edits").map(|(_, v)| *v).sum::<usize>();
+    for i in 0..n {
+        for a in EXTRA_TOKENS {
+            try_edit(&mut o, i, i + 1, &[a], "replace-extra");
+        }
+    }
+    let all = o.counters.iter().filter(|(k, _)| k == "edits").map(|(_, v)| *v).sum::<usize>();
+    o.counters.retain(|(k, _)| k != "edits");
+    o.counters.push(("edits".into(), bound));
+    o.counters.push(("extra_edits".into(), all - bound));
     o
 }
 
